@@ -71,9 +71,13 @@ def findEntry (tbl : List LE) (d i : Int) (h : Option Ent → Option Ent) :
       let (r, rest') := findEntry rest d i h
       (r, le :: rest')
 
+/-- The record `insert_entry` creates: `canonical` is a clone of the entry,
+`links = nlink - 1` in `unsigned int` arithmetic. -/
+def LE.ofEnt (e : Ent) (held : Option Ent) : LE :=
+  { dev := e.dev, ino := e.ino, canon := e.tag, held := held, links := u32dec (e.nlink % 4294967296) }
+
 def insertEntry (tbl : List LE) (e : Ent) (held : Option Ent) : List LE :=
-  tbl ++ [{ dev := e.dev, ino := e.ino, canon := e.tag, held := held,
-            links := u32dec (e.nlink % 4294967296) }]
+  tbl ++ [LE.ofEnt e held]
 
 def Ent.mkLink (e : Ent) (canon : Nat) (unsetSize : Bool) : Ent :=
   { e with hardlink := some canon, sizeSet := if unsetSize then false else e.sizeSet }
